@@ -176,8 +176,13 @@ BumpRealOk(r, a, z, b) ==
                            /\ r \in UnsignedIntReals => (b[2] > 0 /\ (r = "np_uint8" => b[2] <= 255) /\ Before(a, z))
       [] b[1] = "td"    -> r \in TdReals
       [] b[1] = "tenor" -> r \in StrReals
-\* reals = [t0 |-> r, t1 |-> r, bump |-> r]
-RealsOk(rs, a, z, b) == EndRealOk(rs.t0, a) /\ EndRealOk(rs.t1, z) /\ BumpRealOk(rs.bump, a, z, b)
-PlainReals(b) == [t0 |-> "datetime", t1 |-> "datetime",
+\* the entry point: drange itself, or Calendar.drange (claimed for bumps without a business-day part) of a calendar
+\* without holidays ("cal") / with holidays and a Friday-Saturday weekend ("cal_hol": they must not matter)
+Vias == {"drange", "cal", "cal_hol"}
+HasBPart(b) == b[1] = "tenor" /\ \E i \in 1..Len(b[2]) : b[2][i][2] = "b"
+\* reals = [t0 |-> r, t1 |-> r, bump |-> r, via |-> v]
+RealsOk(rs, a, z, b) == /\ EndRealOk(rs.t0, a) /\ EndRealOk(rs.t1, z) /\ BumpRealOk(rs.bump, a, z, b)
+                        /\ rs.via \in Vias /\ (rs.via # "drange" => ~HasBPart(b))
+PlainReals(b) == [t0 |-> "datetime", t1 |-> "datetime", via |-> "drange",
                   bump |-> CASE b[1] = "int" -> "int" [] b[1] = "td" -> "timedelta" [] OTHER -> "l"]
 =============================================================================
